@@ -328,8 +328,9 @@ def _sources_equivalent(source1: str, source2: ast.AST) -> bool:
 
 
 def minimize_whitespace_line_differences(source: str, new_source: str) -> Tuple[str, str, str]:
-    old_lines = source.splitlines(keepends=True)
-    new_lines = new_source.splitlines(keepends=True)
+    # Physical lines: a form feed or a unicode line separator inside a comment or string ends none
+    old_lines = list(core._split_lines(source))
+    new_lines = list(core._split_lines(new_source))
 
     differ = difflib.Differ()
     diffs = list(differ.compare(old_lines, new_lines))
